@@ -191,6 +191,9 @@ type Checker struct {
 	compiler                compiler.Compiler
 	output                  io.Writer
 	threadPool              *vm.ThreadPool
+	// set on method body checkers: whether failures had already been reported
+	// when the (concurrent) checking of method bodies began
+	failedBeforeMethodBodies bool
 }
 
 // Instantiate a new Checker instance.
